@@ -30,6 +30,7 @@ RULE = (
     "channels 1..4, D in 1..3, non-square, 0-3 leading axes; unique ids. Save/load cases: model class x equivariant flag. "
     "Non-trivial: chain length >=2, or k>=2 with >=2 leading axes, or a save/load case; distinct by (signature, layout, chain)."
 )
+RULE += " Also: per-operation storage-order contract for re-layouts that do not pass through pytree flattening; payloads float32 / int32 / float64 under x64; reused jitted identity; save/load templates differing in non-array leaves; checkpoints of ml.train(save_model=...)."
 ASSUMPTIONS = ["ids < 2^24 are exact in float32", "reference scalar layout vmon/ref/misc.py"]
 ANCHORS = [
     "ginjax.geometric.multi_image:MultiImage.to_vector", "ginjax.geometric.multi_image:MultiImage.from_vector",
